@@ -18,6 +18,7 @@ Oracle (b): disallowed character before END -> LexerError e with
 import random
 
 import pvl
+from pvl.decoder import PVLDecoder, OmniDecoder
 from pvl.grammar import (PVLGrammar, ODLGrammar, PDSGrammar, ISISGrammar,
                          OmniGrammar)
 
@@ -27,7 +28,7 @@ from vlib.dialects import budget_parser
 
 ID = "C15"
 LEVEL = "exploration"
-BUDGET = {"quick": 110, "thorough": 1500}
+BUDGET = {"quick": 200, "thorough": 1500}
 RULE = (
     "(a) all 1,114,112 code points x 5 grammars (always complete); (b) (code point, "
     "position, configuration) triples over 24 basic label positions (among them the "
@@ -162,12 +163,27 @@ GAP_EXTRA = {0x100, 0x17F, 0x3B1, 0x2028, 0x20AC, 0xD7FF, 0xD800, 0xDFFF, 0xE000
              0xFFFF, 0x10000, 0x1F600, 0x10FFFF}
 BASIC_POSITIONS = [k for k in POSITIONS if not k.startswith(("gap", "glue"))]
 CONFIGS = ["PVL", "ODL", "PDS3", "PVL-loads", "ODL-loads", "PDS3-loads", "default"]
+# a strict grammar together with a decoder that was built around a grammar with a larger
+# character set (how a caller chooses real_cls / quantity_cls): the grammar= argument
+# decides what the text may contain
+MIXED = {
+    "ODL-loads+PVLDecoder": lambda: dict(grammar=ODLGrammar(),
+                                         decoder=PVLDecoder(grammar=PVLGrammar())),
+    "ODL-loads+OmniDecoder": lambda: dict(grammar=ODLGrammar(),
+                                          decoder=OmniDecoder(grammar=OmniGrammar())),
+    "PDS3-loads+OmniDecoder": lambda: dict(grammar=PDSGrammar(),
+                                           decoder=OmniDecoder(grammar=OmniGrammar())),
+    "PVL-loads+OmniDecoder": lambda: dict(grammar=PVLGrammar(),
+                                          decoder=OmniDecoder(grammar=OmniGrammar())),
+}
 
 
 def run_load(cfg, text):
     lf = counting_lexer()
     if cfg == "default":
         return pvl.loads(text, lexer_fn=lf)
+    if cfg in MIXED:
+        return pvl.loads(text, lexer_fn=lf, **MIXED[cfg]())
     if cfg.endswith("-loads"):
         return pvl.loads(text, grammar=GRAMMARS[cfg[:-6]](), lexer_fn=lf)
     return budget_parser(cfg).parse(text)
@@ -255,7 +271,7 @@ def check_one(cfg, posname, o):
             return (f"C15/default/rejected/{posname}",
                     f"default loader failed for U+{o:04X} in {posname}: {e!r}")
         return None
-    if posname in QUOTED_SHAPES and c != '"':  # (only the one-line templates)
+    if posname in QUOTED_SHAPES and c != '"' and cfg not in MIXED:  # (one-line templates)
         m = outcome[1]
         n = nm.Norm(folding=cfg in ("ODL", "PDS3", "default") or cfg.endswith("-loads"),
                     omni=cfg == "default" or cfg.endswith("-loads"))
@@ -313,8 +329,31 @@ def positioned(acc, cps=None, lo=None, hi=None, all_gaps=True):
         acc.event("positioned_codepoints")
 
 
+def mixed_wiring(acc, cps):
+    for o in cps:
+        if acc.expired():
+            acc.notes["budget_exhausted"] = 1
+            return
+        for cfg in MIXED:
+            gname = cfg.split("-")[0]
+            for posname in BASIC_POSITIONS:
+                r = check_one(cfg, posname, o)
+                nt = (not allowed(gname, o)) or o > 127
+                acc.case(key=f"{cfg}|{posname}|{o}", nontrivial=nt)
+                if r is not None:
+                    acc.fail(r[0].replace("C15/", "C15/grammar-and-decoder/", 1),
+                             dict(kind="pos", config=cfg, position=posname, cp=o), r[1])
+        acc.event("mixed_codepoints")
+
+
 def shards(tier, seed):
     out = []
+    mix = [o for o in codepoints_quick(seed) if o >= 0x300 or o % 4 == 0 or
+           o in (8, 9, 13, 14, 31, 127, 128, 159, 160, 255)]
+    if tier == "quick":
+        mix = mix[:400]
+    for i in range(8):
+        out.append(("mixed_wiring", dict(cps=mix[i::8])))
     step = 0x110000 // 32
     for lo in range(0, 0x110000, step):
         out.append(("table", dict(lo=lo, hi=min(0x110000, lo + step))))
